@@ -184,7 +184,9 @@ fn resolve(s: &Setup, ledger: &BTreeMap<String, Decimal>, n: usize, inst: u8, un
         Size::HalfAvailable => (all / Decimal::TWO).trunc_with_scale(6).max(tick),
     };
     let required = if buy { price * qty * one_plus_fee } else { qty * one_plus_fee };
-    let instrument = if unknown { InstrumentNameExchange::new("NOPE") } else { name.clone() };
+    // an instrument the exchange does not list: an unrelated name, or a listed name in the other
+    // letter case (a different name)
+    let instrument = if unknown { if n % 2 == 0 { InstrumentNameExchange::new(name.name().to_lowercase()) } else { InstrumentNameExchange::new("NOPE") } } else { name.clone() };
     Resolved {
         request: OrderRequestOpen {
             key: OrderKey { exchange: ExchangeId::Mock, instrument, strategy: StrategyId::new("s"), cid: ClientOrderId::new(format!("c{n}")) },
@@ -568,7 +570,15 @@ impl Check for MockExchangeRun {
                     Op::QueryTrades => {
                         queries += 1;
                         let cutoff = if case.since.is_empty() { 0 } else { case.since[n % case.since.len()] };
-                        let since = if cutoff == 0 { ts(0) } else { ts(T0_MS + 1000 * cutoff as i64) };
+                        // odd cut-offs (when fills exist): "everything since the fill I saw", i.e.
+                        // exactly the announced time of an accepted fill
+                        let since = if cutoff == 0 {
+                            ts(0)
+                        } else if cutoff % 2 == 1 && !trades.is_empty() {
+                            trades[cutoff as usize % trades.len()].time
+                        } else {
+                            ts(T0_MS + 1000 * cutoff as i64)
+                        };
                         let t = tokio::time::timeout(watchdog, client.fetch_trades(since)).await.map_err(|_| ("no-response".to_string(), "trade query unanswered".to_string()))?.map_err(|e| ("query-failed".to_string(), format!("{e:?}")))?;
                         let mut got: Vec<(String, Side, Decimal, Decimal, Decimal, String)> = t.iter().map(|x| (x.order_id.0.to_string(), x.side, x.price, x.quantity, x.fees.fees, x.instrument.to_string())).collect();
                         let mut want: Vec<_> = trades.iter().filter(|x| x.time >= since).map(|x| (x.order_id.clone(), x.side, x.price, x.qty, x.fees, x.instrument.clone())).collect();
@@ -620,7 +630,7 @@ impl Check for MockExchangeRun {
 }
 
 pub fn run(ctx: &mut Ctx) {
-    ctx.rule = "mock_ledger: 2..4 assets with generated initial balances (incl. zero), 1..3 spot instruments, fee in {0, 0.1%, 1%, 10%, 25%}, vec(request,1..30|60): side, price (2 dp), quantity explicit or sized against the spent asset's available balance (all of it / one 0.000001 more / half), 10% limit orders, 7% unknown instrument, 6% of the quantities carry a minus sign (read as magnitudes); checked after every request. mock_exchange_run: same with interleaved snapshot/balance/trade queries through MockExecution + MockExchange::run under the paused clock, latency 0..49 ms; in two thirds of the cases the client clock is a generated non-monotonic sequence and trade queries carry a cut-off (expected = accepted fills announced with a time at or after it); in half of the cases 15% of the open requests are abandoned by their submitter before the exchange answers (still executed, announced and listed iff affordable). non-trivial = (ledger) an accepted sell AND a balance rejection AND a kind/instrument rejection in one history; (run) accepted + rejected + query; distinct by hash of the case.".into();
+    ctx.rule = "mock_ledger: 2..4 assets with generated initial balances (incl. zero), 1..3 spot instruments, fee in {0, 0.1%, 1%, 10%, 25%}, vec(request,1..30|60): side, price (2 dp), quantity explicit or sized against the spent asset's available balance (all of it / one 0.000001 more / half), 10% limit orders, 7% unknown instrument (an unrelated name or a listed name in lower case), 6% of the quantities carry a minus sign (read as magnitudes); checked after every request. mock_exchange_run: same with interleaved snapshot/balance/trade queries through MockExecution + MockExchange::run under the paused clock, latency 0..49 ms; in two thirds of the cases the client clock is a generated non-monotonic sequence and trade queries carry a cut-off — a whole second or exactly the announced time of an accepted fill — (expected = accepted fills announced with a time at or after it); in half of the cases 15% of the open requests are abandoned by their submitter before the exchange answers (still executed, announced and listed iff affordable). non-trivial = (ledger) an accepted sell AND a balance rejection AND a kind/instrument rejection in one history; (run) accepted + rejected + query; distinct by hash of the case.".into();
     ctx.assumptions = vec![
         "balances present for every asset of a configured instrument, total == free (what the builder sets up)".into(),
         "all arithmetic exact: prices 2 dp, quantities <= 6 dp, fees <= 3 dp".into(),
